@@ -38,7 +38,9 @@ def build(node):
   if k == "R":
     child = build(node[1])
     text = child.get_text()
-    return textbuilder.Replacer(child, [textbuilder.Patch(s, e, text[s:e], new) for (s, e, new) in node[2]])
+    # patches are a set: they are handed over in reverse position order
+    return textbuilder.Replacer(child, [textbuilder.Patch(s, e, text[s:e], new)
+                                        for (s, e, new) in reversed(node[2])])
   if k == "C":
     return textbuilder.Combiner([build(p) for p in node[1]])
   raise ValueError(k)
@@ -202,6 +204,9 @@ def judge(node, s, e):
       # once an outer end offset is pushed past a deletion it can land strictly inside an inner
       # replacement text, where nothing determines the answer: same start, later end
       cls = "end-offset-maps-past-adjacent-deletion:then-inside-inner-replacement"
+    elif alt[0] == "skip" and want[0] == "patch" and got[0] == "refused":
+      # ... and from there an inner Combiner sees a range that leaves its part
+      cls = "end-offset-maps-past-adjacent-deletion:then-inside-inner-replacement:refused"
   clause = "C37.spanning_refused" if want[0] == "refused" else "C37.map_back_exact"
   if cls == "other":
     cls = {"refused": "unexpected-refusal", "raised": "raised", "none": "unexpected-none",
@@ -256,7 +261,7 @@ def structures(tier, seed):
     for p1 in patch_sets(len(t), 2):
       if not p1: continue
       mid = apply_directly(t, p1)
-      for p2 in patch_sets(len(mid), 1 if q else 2, repl=["", "Z", "ZW"]):
+      for p2 in patch_sets(len(mid), 1 if (q or len(t) == 4) else 2, repl=["", "Z", "ZW"]):
         if not p2: continue
         yield ("R", ("R", ("T", t, "v0"), p1), p2)
   # depth 1/2: Combiner of literals, Texts and Replacers
@@ -396,7 +401,7 @@ def main():
     "replacer_over_text": ("texts <= 4, <= 3 patches" if tier == "quick"
                            else "texts <= 6, <= 3 patches (<= 2 for length 6)"),
     "replacer_over_replacer": ("texts 1..3, inner <= 2 patches, outer 1 patch" if tier == "quick"
-                               else "texts 1..4, inner <= 2, outer <= 2 patches"),
+                               else "texts 1..3: inner <= 2, outer <= 2 patches; texts of 4: outer 1 patch"),
     "combiner": "all sequences of 1..3 parts over a pool of %d parts (Texts, literals, empty parts, "
                 "Replacers with deletions/insertions)" % (9 if tier == "quick" else 12),
     "replacer_over_combiner": "%d combiners x all patch sets of <= %d patches"
